@@ -58,6 +58,18 @@ func (t *Queue[T]) Add(value T, scheduledTime time.Time) (addedElement *QueueEle
 	// acquire locks
 	t.heapMutex.Lock()
 
+	// the queue could have been shut down since the check above: the pollers are gone (or about to leave) then, and an
+	// element that is added now would be accepted but never delivered
+	if t.IsShutdown() {
+		t.heapMutex.Unlock()
+
+		if t.shutdownFlags.HasBits(PanicOnModificationsAfterShutdown) {
+			panic("tried to modify a shutdown TimedQueue")
+		}
+
+		return nil
+	}
+
 	// add new element
 
 	element := &generalheap.HeapElement[HeapKey, *QueueElement[T]]{
